@@ -17,6 +17,12 @@ pub(super) fn validate_query_against_schema(
     schema: &Schema,
     query: &Query,
 ) -> Result<(), FrontendError> {
+    // The root of the query must be an edge on the root query type: a starting edge.
+    // The `__typename` meta field is a property, so it can't be used there.
+    if query.root_field.name.as_ref() == TYPENAME_META_FIELD {
+        return Err(FrontendError::PropertyMetaFieldUsedAsEdge(TYPENAME_META_FIELD.to_string()));
+    }
+
     let mut path = vec![];
     validate_field(
         schema,
